@@ -324,9 +324,11 @@ func (t *ByronTransaction) UnmarshalCBOR(cborData []byte) error {
 		return err
 	}
 
-	if len(txArray) < 2 {
+	// A Byron TxAux is exactly [tx, witnesses]. Anything beyond that is covered
+	// by neither the merkle root nor the witness hash of the block's body proof.
+	if len(txArray) != 2 {
 		return fmt.Errorf(
-			"invalid byron transaction: expected at least 2 components, got %d",
+			"invalid byron transaction: expected 2 components, got %d",
 			len(txArray),
 		)
 	}
